@@ -5,4 +5,5 @@ CHECK_DEADLOCK FALSE
 CONSTANTS
   MaxLen = 1
   FullLen = 1
+  MidLen = 1
   MaxLists = 2
